@@ -107,6 +107,15 @@ def same_data(got, want):
     return isinstance(got, dict) and all(got.get(k) == want[k] for k in ("shape", "dtype", "sha"))
 
 
+def _umask():
+    m = os.umask(0o022)
+    os.umask(m)
+    return m
+
+
+UMASK = _umask()        # inherited by the dataset children
+
+
 def cache_entry_ok(path, url, rows=40):
     """offline oracle over the file system: absent, or a complete pickle of exactly the expected array"""
     import pickle
